@@ -109,14 +109,18 @@ def run(ctx):
     n = 60 if ctx.tier == "quick" else 600
     rows = run_life(binp, ctx.seed, n)
     failures, mismatches = [], []
-    for r in rows:
+    suspects = [r for r in rows if oracle(r)]
+    for r in suspects[:8]:
+        if len(failures) >= 3:
+            break
         why = oracle(r)
-        if not why:
-            continue
         again = [x for k in range(2) for x in run_life(binp, ctx.seed, n, only=r["id"])]
         if any(oracle(x) for x in again):
             failures.append({"case": {"seed": r["seed"], "id": r["id"], "mode": r["mode"], "jobs": r["jobs"], "ops": r["ops"], "n": n},
-                             "why": why, "how": "looph life: the listed operations on one scheduler, then quiescence, Stop, Wait, goroutine profile"})
+                             "why": why, "failing_sequences_in_this_run": len(suspects),
+                             "how": "looph life: the listed operations on one scheduler, then quiescence, Stop, Wait, goroutine profile"})
+    restart_rows, rf = lc.restart_failures(binp, ctx.seed, 24 if ctx.tier == "quick" else 200)
+    failures += rf
     if lc.model_available():
         bad, out = model_mismatches(rows)
         if bad is None:
@@ -145,7 +149,7 @@ def run(ctx):
                 "0/yield/1ms/20ms; non-trivial = at least two effective Starts (a restart)",
         "samples": [{"mode": r["mode"], "jobs": r["jobs"], "ops": r["ops"], "observed_started": r["observed_started"]} for r in rows[:3]],
         "exhaustive": False,
-        "sequences_with_immediate_restart": len(restarts),
+        "sequences_with_immediate_restart": len(restarts), "restart_with_old_loop_alive_trials": len(restart_rows),
         "model_mismatches": len(mismatches), "oracle_failures": len(failures),
         "partial_runtime": "goroutine exit and the absence of executions after Wait are observed (goroutine profile filtered to go-quartz/quartz frames), not proved",
     })
@@ -161,6 +165,13 @@ def replay(ctx, path):
     obj = json.load(open(path))
     c = obj.get("case", {})
     binp = lc.looph()
+    if c.get("kind") == "restart":
+        rows, rf = lc.restart_failures(binp, c.get("seed", ctx.seed), c.get("n", 24))
+        print(json.dumps({"trials": len(rows), "failing": len([r for r in rows if lc.restart_oracle(r)])}))
+        if rf:
+            vlib.report_violation(ctx, rf[0])
+            return 1
+        return 0
     rows = run_life(binp, c.get("seed", ctx.seed), c.get("n", 60), only=c.get("id", 0))
     for r in rows:
         why = oracle(r)
